@@ -99,7 +99,7 @@ var runCounter int64
 func NextRun() int { return int(atomic.AddInt64(&runCounter, 1)) }
 
 // readAll drains a reader with the given destination sizes (cycled).
-func readAll(ctx context.Context, r sliceio.Reader, types []Col, sizes []int) (rows []Row, err error) {
+func ReadAll(ctx context.Context, r sliceio.Reader, types []Col, sizes []int) (rows []Row, err error) {
 	defer func() {
 		if e := recover(); e != nil {
 			err = fmt.Errorf("panic: %v", e)
@@ -140,7 +140,7 @@ func Observe(ctx context.Context, res *exec.Result, sch Schema, run int, o *Obs)
 	if len(sch.Types) > 0 {
 		for s := 0; s < nt; s++ {
 			rc := exec.VerifShardReader(res, s)
-			rows, err := readAll(ctx, rc, sch.Types, []int{3, 128, 1, 200})
+			rows, err := ReadAll(ctx, rc, sch.Types, []int{3, 128, 1, 200})
 			rc.Close()
 			o.Shards = append(o.Shards, rows)
 			o.ShardEr = append(o.ShardEr, ErrClass(err, run))
